@@ -15,6 +15,7 @@ use rand::seq::SliceRandom;
 use rand::{Rng, SeedableRng};
 use rand_chacha::ChaCha8Rng;
 use std::collections::HashSet;
+use std::net::SocketAddr;
 
 const REFRESH_INTERVAL: Micros = 6 * SEC;
 
@@ -73,6 +74,7 @@ fn scenario(ctx: &Ctx, idx: u64) -> Report {
             .collect();
         let contacts: Vec<_> = nodes.iter().take(rng.gen_range(1..=world_size.min(8))).map(|n| n.addr).collect();
         let owned: HashSet<_> = nodes.iter().map(|n| n.addr).collect();
+        let all_addrs: Vec<SocketAddr> = nodes.iter().map(|n| n.addr).collect();
         let mut world = World::new(nodes);
         world.keep_served = false;
         net.add_actor(move |a| owned.contains(a), world);
@@ -92,9 +94,21 @@ fn scenario(ctx: &Ctx, idx: u64) -> Report {
             outages.push((start, start + len));
         }
         let outs = outages.clone();
-        let link = Link::uniform(2 * MS, *[120 * MS, 120 * MS, 700 * MS, 1300 * MS].choose(&mut rng).unwrap());
+        let mut link = Link::uniform(2 * MS, *[120 * MS, 120 * MS, 700 * MS, 1300 * MS].choose(&mut rng).unwrap());
+        // send failures: some destinations can never be sent to (firewall rule, unroutable address
+        // learnt by hearsay: send_to returns an error), and any send may fail now and then
+        let unsendable: HashSet<SocketAddr> = if rng.gen_bool(0.35) && all_addrs.len() > 1 {
+            let k = rng.gen_range(1..=2usize.min(all_addrs.len() - 1));
+            all_addrs[1..].choose_multiple(&mut rng, k).copied().collect()
+        } else {
+            HashSet::new()
+        };
+        link.fail_p = *[0.0, 0.0, 0.02, 0.2].choose(&mut rng).unwrap();
+        let n_unsendable = unsendable.len();
         net.set_fault(Box::new(move |rng, meta| {
-            if outs.iter().any(|(a, b)| meta.now >= *a && meta.now < *b) {
+            if meta.from_socket && unsendable.contains(&meta.dst) {
+                Fate::failed()
+            } else if outs.iter().any(|(a, b)| meta.now >= *a && meta.now < *b) {
                 Fate::dropped()
             } else {
                 link.decide(rng, meta.from_socket)
@@ -112,6 +126,12 @@ fn scenario(ctx: &Ctx, idx: u64) -> Report {
         cfg.nodes = contacts;
         let dht = spawn_node(&net, &cfg);
         report.evaluations += 1;
+        if n_unsendable > 0 {
+            report.count("runs_with_unsendable_destinations");
+        }
+        if rng.gen_bool(0.3) {
+            crate::world::api_hammer(&net, &dht, addr, seed, 0.05, 100_000);
+        }
 
         // occasional searches: their 1.5 s timers interleave with the refresh timer. Some are
         // started at the very instant a datagram reaches the node (API call and network event in
